@@ -116,10 +116,14 @@ def make_cons(spec, D):
     if fam == "halfspace":          # violated when w.x > b
         w = np.array(spec["w"], dtype=float)
         b = float(spec["b"])
+        if spec.get("float"):       # returns the violation AMOUNT (> 0 violated, 0 on the boundary is feasible)
+            return lambda X: (np.atleast_2d(X) @ w) - b
         return lambda X: (np.atleast_2d(X) @ w) > b
     if fam == "ball":               # violated outside the ball
         c = np.array(spec["c"], dtype=float)
         r = float(spec["r"])
+        if spec.get("float"):
+            return lambda X: np.sum((np.atleast_2d(X) - c) ** 2, axis=1) - r * r
         return lambda X: np.sum((np.atleast_2d(X) - c) ** 2, axis=1) > r * r
     if fam == "slab":               # |w.x - b| > h violated (thin slab)
         w = np.array(spec["w"], dtype=float)
